@@ -9,19 +9,19 @@ open Util
 
 let str_decode (line : string) : string =
   let text = str_of_hex line in
-  let value () = match string_of_token text with SOk v -> Some v | SPanic -> None in
-  match classify_literal text with
-  | LInvalid ->
-    if lexer_accepts_literal text then
+  let value () = match su_string_of_token text with SuOk v -> Some v | SuPanic -> None in
+  match sl_classify_literal text with
+  | SlInvalid ->
+    if sl_lexer_accepts_literal text then
       (match value () with Some v -> "quirk " ^ hex_of_str v | None -> "panic")
     else "invalid"
-  | LQuoted _ -> (match value () with Some v -> "ok " ^ hex_of_str v | None -> "panic")
-  | LBlock body ->
+  | SlQuoted _ -> (match value () with Some v -> "ok " ^ hex_of_str v | None -> "panic")
+  | SlBlock body ->
     (match value () with
      | None -> "panic"
      | Some v ->
        (* cross-check of the theorem C06_block on this input: the spec function on the raw value *)
-       let spec = blockStringValue (replace_esc3 body) in
+       let spec = bs_BlockStringValue (su_replace_esc3 body) in
        if spec <> v then "model-failure code model and BlockStringValue differ"
        else "ok " ^ hex_of_str v)
 
